@@ -149,6 +149,9 @@ fn run_plane<P: PlanePersistence>(
         let o = match op {
             Op::Open(a) => {
                 if nodes.contains_key(a) {
+                    // the agent is running: the server builds the request for its store all the same and abandons it
+                    // (server/runtime: node_store(..) before resolve_agent); nothing may come of that
+                    drop(plane.as_ref().unwrap().node_store(a));
                     skipped.clone()
                 } else {
                     let n = block_on(plane.as_ref().unwrap().node_store(a)).expect("node_store");
@@ -242,6 +245,11 @@ fn gen(rng: &mut Rng, rocks: bool, len: usize, collide: bool, mix_kinds: bool) -
     while ops.len() < len {
         let a = rng.pick(&agents).to_string();
         let r = rng.below(100);
+        if open.contains(&a) && (4..7).contains(&r) {
+            // a request for the store of an agent that is running (abandoned by the server)
+            ops.push(Op::Open(a));
+            continue;
+        }
         if !open.contains(&a) || r < 4 {
             if open.contains(&a) {
                 open.remove(&a);
@@ -422,7 +430,7 @@ fn main() {
     let meta = J::obj(vec![
         ("evaluations", J::I(w.len() as i128)),
         ("distinct_nontrivial", J::I(nontrivial as i128)),
-        ("rule", J::s("first two (thorough: six) wide histories: 300 map items and 60 value items of one agent (lane ids pass 255 / 256 - ids are little-endian in the store keys), six of the maps cleared (among them the items with ids 1 and 255), a reopen, then every map read back; then histories of open / close / reopen (RocksDB: close the database and open the plane again) and id_for+get/put/delete/update/remove/clear/read_map over 3 agents x 4 items, each (agent, item) of a fixed kind (a fifth of the in-memory histories mix kinds to exercise InvalidOperation; an eighth of the RocksDB histories use agent/item names whose '<agent>/<item>' concatenations collide); keys from a pool of adversarial byte strings (empty, 0x00, 0xff, shared prefixes, lengths 7..9 and 16..19 around the key prefix sizes) or random; every history ends by reading everything back (after a reopen for RocksDB); alternating back-ends; non-trivial = a read_map with >= 2 entries after a close / reopen; distinct by history")),
+        ("rule", J::s("(a request for the store of an agent that is open is made and abandoned, as the server does for a running agent: Open of an open agent) first two (thorough: six) wide histories: 300 map items and 60 value items of one agent (lane ids pass 255 / 256 - ids are little-endian in the store keys), six of the maps cleared (among them the items with ids 1 and 255), a reopen, then every map read back; then histories of open / close / reopen (RocksDB: close the database and open the plane again) and id_for+get/put/delete/update/remove/clear/read_map over 3 agents x 4 items, each (agent, item) of a fixed kind (a fifth of the in-memory histories mix kinds to exercise InvalidOperation; an eighth of the RocksDB histories use agent/item names whose '<agent>/<item>' concatenations collide); keys from a pool of adversarial byte strings (empty, 0x00, 0xff, shared prefixes, lengths 7..9 and 16..19 around the key prefix sizes) or random; every history ends by reading everything back (after a reopen for RocksDB); alternating back-ends; non-trivial = a read_map with >= 2 entries after a close / reopen; distinct by history")),
         ("op_kinds", J::counts(&kinds)),
         ("backends", J::counts(&backends)),
         ("samples", J::A(samples)),
